@@ -1,0 +1,17 @@
+//go:build verif
+
+// Thin export for the verification harness (/verif/harness/cmd/notif, property C17). Add-only, compiled only
+// with -tags verif. No logic.
+package server
+
+import "github.com/oxia-db/oxia/server/kv"
+
+// VerifWrapLeaderDB replaces the leader controller's DB by wrap(db): the harness hands in a pass-through
+// kv.DB that lets it decide when a ReadNextNotifications of the dispatch loop returns. Call it before any
+// subscriber is attached.
+func VerifWrapLeaderDB(l LeaderController, wrap func(kv.DB) kv.DB) {
+	lc := l.(*leaderController)
+	lc.Lock()
+	defer lc.Unlock()
+	lc.db = wrap(lc.db)
+}
